@@ -51,6 +51,11 @@ def gen_cases(ctx):
     for case in c08.gen_cases(ctx):
         if case['kind'] == 'sync':
             yield dict(part='match', case=case)
+    for first in ('add', 'notify', 'getitem'):
+        for second in ('add', 'dunder', 'proxy', 'getitem', 'notify', 'none'):
+            for outcome1 in ('ok', 'error', 'exception'):
+                for strict in (True, False):
+                    yield dict(part='reuse', first=first, second=second, outcome1=outcome1, strict=strict)
     for case in c07.gen_cases(ctx):
         if tuple(case['pair']) == ('sync', 'sync') and case['idgen'] in ('sequential', 'randint12'):
             yield dict(part='notation', case=case)
@@ -180,6 +185,62 @@ def run_notation(case, rec):
     return repr(out[0])[:80]
 
 
+def run_reuse(case, rec):
+    """one batch wrapper object used for two consecutive deliveries: both halves must keep / forget the same calls"""
+    from mc.harness.client import make_client
+    from mc.harness.client import run as drive
+    out = []
+    for kind in ('sync', 'async'):
+        n = [0]
+
+        def responder(text, is_notif, kw):
+            n[0] += 1
+            doc = json.loads(text)
+            if n[0] == 1 and case['outcome1'] == 'exception':
+                raise ConnectionError('first delivery fails')
+            res = []
+            for e in doc:
+                if 'id' in e:
+                    if n[0] == 1 and case['outcome1'] == 'error':
+                        res.append({'jsonrpc': '2.0', 'id': e['id'], 'error': {'code': 5, 'message': 'm'}})
+                    else:
+                        res.append({'jsonrpc': '2.0', 'id': e['id'], 'result': [e['method'], e.get('params')]})
+            return json.dumps(res) if res else None
+        client = make_client(kind, responder, strict=case['strict'])
+        b = client.batch
+
+        def step(how, tag):
+            if how == 'add':
+                b.add('m_' + tag, tag)
+                return b.call
+            if how == 'dunder':
+                b('m_' + tag, tag)
+                return b.call
+            if how == 'proxy':
+                p = b.proxy
+                getattr(p, 'm_' + tag)(tag)
+                return p.call
+            if how == 'notify':
+                b.notify('m_' + tag, tag)
+                return b.call
+            if how == 'getitem':
+                return lambda: b[[('m_' + tag, tag)]]
+            return b.call
+        r1 = drive(kind, step(case['first'], 'one'))
+        r2 = drive(kind, step(case['second'], 'two'))
+        rec.transitions += 2
+
+        def show(r):
+            return (r[0], repr(r[1]) if r[0] == 'ok' else '%s: %s' % (type(r[1]).__name__, r[1]))
+        out.append(([t for t, _, _ in client.sent], show(r1), show(r2)))
+    if out[0] != out[1]:
+        field = ['request documents', 'first result', 'second result'][[i for i in range(3) if out[0][i] != out[1][i]][0]]
+        rec.violation('C11:client:%s differ between sync and async when a batch wrapper is used twice' % field, case,
+                      expected=dict(sync=out[0]), observed={'async': out[1]})
+    rec.outcomes['reuse twins agree'] += 1
+    return repr(out[0])[:120]
+
+
 def run_case(case, rec):
     r = Recorder()
     p = case['part']
@@ -195,6 +256,8 @@ def run_case(case, rec):
         obs = run_client_tree(case, r, 'tracing')
     elif p == 'match':
         obs = run_match(case, r)
+    elif p == 'reuse':
+        obs = run_reuse(case, r)
     else:
         obs = run_notation(case, r)
     r.states += 1
@@ -215,7 +278,7 @@ def run(ctx):
     ctx.assumptions += ['KeyboardInterrupt (sync) and CancelledError (async) stand for the same BaseException outcome']
     ctx.run_cases('C11', lambda: gen_cases(ctx), run_case, recheck_every=2003)
     c = ctx.rec.counters
-    ctx.guard('all twin pairs exercised', all(c.get('part ' + p, 0) > 0 for p in ('text', 'failure', 'stack', 'retry', 'tracer', 'match', 'notation')), dict(c))
+    ctx.guard('all twin pairs exercised', all(c.get('part ' + p, 0) > 0 for p in ('text', 'failure', 'stack', 'retry', 'tracer', 'match', 'notation', 'reuse')), dict(c))
 
 
 def replay(doc):
